@@ -999,6 +999,17 @@ def _mk_try(x):
         return _mk_if_raw(x[1], _mk_try(x[2]), _mk_try(x[3]))
     if x[0] == "call" and x[1] == "Err" and len(x[2]) == 1:
         return ("ret", x)            # Err(e)?  leaves the function with the error (up to the error conversion)
+    if x[0] == "match" and len(x[2]) == 2 and all(g is None for _p, g, _b in x[2]):
+        # (match r { Ok(v) => Ok(X(v)), Err(e) => Err(e) })?  ==  X(r?)     (r.map(f)?  ==  f(r?))
+        arms = {p: b for p, _g, b in x[2]}
+        okb, erb = arms.get("v1::Ok($)"), arms.get("v1::Err($)")
+        r = x[1]
+        if okb is not None and erb == ("call", "Err", [("proj", r, "v1::Err", "0")]) and okb[0] == "call" and okb[1] == "Ok" and len(okb[2]) == 1:
+            okv = ("proj", r, "v1::Ok", "0")
+            X = okb[2][0]
+            n_use = sum(1 for y in subterms(X) if y == okv)
+            if n_use == 1 and not any(y == r for y in subterms(rewrite(X, lambda n: ("lit", "()") if n == okv else None))):
+                return rewrite(X, lambda n: ("try", r) if n == okv else None)
     if x[0] == "match" and all(g is None for _p, g, _b in x[2]) and any(_tail_ok(b) or (b[0] == "call" and b[1] == "Err" and len(b[2]) == 1) for _p, _g, b in x[2]):
         # (match v { A => fallible, B => Ok(b), C => Err(e) })?   ==   match v { A => fallible?, B => b, C => return Err(e) }
         return ("match", x[1], [(p, g, b if _diverges(b) else _mk_try(b)) for p, g, b in x[2]])
@@ -1971,16 +1982,7 @@ class Norm:
         if it[0] == "call" and it[1] == "Iterator::map":
             x = rewrite(x, fuse)
             it = _elem_of(it)[0]
-        es = _show(("elem", it))
-
-        def sub(n):
-            if n[0] == "elem" and _show(n) == es:
-                return ("cparam", d, 0)
-            if n[0] == "cparam" and n[1] >= d:
-                return ("cparam", n[1] + 1, n[2])        # closures of the loop body end up one level deeper
-            if n[0] == "closure" and n[1] >= d:
-                return ("closure", n[1] + 1, n[2], n[3])
-            return None
+        sub = _elem_to_param(it, d)
         r = ("call", "Iterator::collect", [("call", "Iterator::map", [it, ("closure", d, 1, rewrite(x, sub))])])
         return ("try", r) if hoist else r
 
@@ -2129,17 +2131,7 @@ class Norm:
             if r:
                 it = self._t(r[0][1])
                 d = depth + 1
-                es = _show(("elem", it))
-
-                def sub(n):
-                    if n[0] == "elem" and _show(n) == es:
-                        return ("cparam", d, 0)
-                    if n[0] == "cparam" and n[1] >= d:
-                        return ("cparam", n[1] + 1, n[2])
-                    if n[0] == "closure" and n[1] >= d:
-                        return ("closure", n[1] + 1, n[2], n[3])
-                    return None
-                slots.append(("call", "Iterator::map", [it, ("closure", d, 1, rewrite(piece, sub))]))
+                slots.append(("call", "Iterator::map", [it, ("closure", d, 1, rewrite(piece, _elem_to_param(it, d)))]))
                 text.append("#( #%d )*" % (len(slots) - 1))
             elif piece[0] == "tpl" and piece[1] == "quote":
                 base = len(slots)
@@ -2183,22 +2175,15 @@ class Norm:
                 x = self._t(node["args"][0])
                 d = depth + 1
                 hoist = False
+                if it[0] == "call" and it[1] in ("Iterator::filter_map", "Iterator::filter") and len(it[2]) == 2 and it[2][1][0] == "closure":
+                    # for y in it.filter_map(f) { v.push(X) }: the list built as  for x in it { if let Some(y) = f(x) { X } }   (the form of the
+                    # collected filter_map)
+                    return ("call", "vec+", [_mk_for(it, x)])
                 if x[0] == "try":
                     x, hoist = x[1], True
                 elif _has_try(x):
                     x, hoist = ("call", "Ok", [x]), True
-                elem = ("elem", it)
-                es = _show(elem)
-
-                def sub(n):
-                    if n[0] == "elem" and _show(n) == es:
-                        return ("cparam", d, 0)
-                    if n[0] == "cparam" and n[1] >= d:
-                        return ("cparam", n[1] + 1, n[2])        # closures of the loop body end up one level deeper
-                    if n[0] == "closure" and n[1] >= d:
-                        return ("closure", n[1] + 1, n[2], n[3])
-                    return None
-                body = rewrite(x, sub)
+                body = rewrite(x, _elem_to_param(it, d))
                 r = ("call", "Iterator::collect", [("call", "Iterator::map", [it, ("closure", d, 1, body)])])
                 return ("try", r) if hoist else r
         # (s) result of a search loop:  let mut f = false; for x in it { if c { f = true; break } }    ==   it.any(|x| c)
@@ -2424,6 +2409,19 @@ class Norm:
             for p, _g, b in reversed(arms[:-1]):
                 r = _mk_if(_mk_cmp("==", scr, ("lit", p.strip("'"))), b, r)
             return r
+        if len(arms) == 2 and all(g is None for _p, g, _b in arms) and {arms[0][0], arms[1][0]} == {"Entry::Occupied($)", "Entry::Vacant($)"}:
+            # match m.entry(k) { Occupied(e) => e.into_mut(), Vacant(e) => e.insert(V) }  ==  m.entry(k).or_insert_with(|| V)
+            ob = next(b for p, _g, b in arms if p == "Entry::Occupied($)")
+            vb = next(b for p, _g, b in arms if p == "Entry::Vacant($)")
+            oe, ve = ("proj", scr, "Entry::Occupied", "0"), ("proj", scr, "Entry::Vacant", "0")
+            if scr[0] == "call" and scr[1] in ("BTreeMap::entry", "HashMap::entry") and len(scr[2]) == 2:
+                vb = rewrite(vb, lambda n: scr[2][1] if n == ("call", "VacantEntry::key", [ve]) else None)      # the vacant entry's key is the key asked for
+            if ob == ("call", "OccupiedEntry::into_mut", [oe]) and vb[0] == "call" and vb[1] == "VacantEntry::insert" and len(vb[2]) == 2 and vb[2][0] == ve \
+                    and not any(x in (oe, ve) for x in subterms(vb[2][1])):
+                V = vb[2][1]
+                if V == ("call", "Default::default", []):
+                    return ("call", "Entry::or_default", [scr])
+                return ("call", "Entry::or_insert_with", [scr, ("closure", getattr(self, "_cur_depth", 0) + 1, 0, V)])
         grouped = self._group_same_head(scr, arms)
         if grouped is not None:
             return self._canon_match(scr, grouped)
@@ -3156,6 +3154,18 @@ class Norm:
                     return inl
             recv = self._t(e["recv"])
             args = [self._t(a) for a in e["args"]]
+            if name in _ETA_ADAPTORS and len(args) == 1 and args[0][0] == "def":
+                # o.map(Ok)  ==  o.map(|v| Ok(v)): a constructor / function passed by name is the closure that calls it
+                clo = _eta(args[0], getattr(self, "_cur_depth", 0) + 1)
+                if clo is not None:
+                    args = [clo]
+            if name == "Option::map" and len(args) == 1 and args[0][0] == "closure" and args[0][2] == 1:
+                if recv[0] == "call" and recv[1] == "Some" and len(recv[2]) == 1:
+                    return ("call", "Some", [_apply(args[0], recv[2][0])])            # Some(x).map(f)  ==  Some(f(x))
+                if recv == ("def", "v1::None"):
+                    return recv
+                if recv[0] == "call" and recv[1] == "then" and len(recv[2]) == 2:
+                    return _mk_then(recv[2][0], _apply(args[0], recv[2][1]))          # c.then(|| v).map(f)  ==  c.then(|| f(v))
             if name == "ToTokens::to_tokens" and len(args) == 1:
                 x = recv if recv[0] == "tpl" and recv[1] == "quote" else ("tpl", "quote", "#0", [recv])
                 return _extend_over_match(args[0], x)     # x.to_tokens(ts)  ==  ts.extend(quote!(#x))
@@ -3896,6 +3906,23 @@ def _mk_for(it, body):
         el = ("elem", inner_it)
         return _mk_for(base, _mk_for(inner_it, rewrite(body, lambda n: el if n == old else None)))
     old = ("elem", it)
+    if it[0] == "call" and it[1] == "iter::once" and len(it[2]) == 1:
+        return rewrite(body, lambda n: it[2][0] if n == old else None)          # for x in once(a) { body }  ==  body[a]
+    if it[0] == "call" and it[1] == "iter::empty" and not it[2]:
+        return ("tup", [])
+    if it[0] == "call" and it[1] == "Iterator::chain" and len(it[2]) == 2 and not _loop_control(body):
+        # for x in a.chain(b) { body }  ==  for x in a { body }  for x in b { body }
+        parts = [_mk_for(src, rewrite(body, (lambda src: (lambda n: ("elem", src) if n == old else None))(src))) for src in it[2]]
+        parts = [x for x in parts if x not in (("lit", "()"), ("tup", []))]
+        if not parts:
+            return ("tup", [])
+        flat = []
+        for x in parts:
+            if x[0] == "seq" and x[2] != ("lit", "()") and all(True for _ in x[1]):
+                flat.extend(list(x[1]) + [x[2]])
+            else:
+                flat.append(x)
+        return flat[0] if len(flat) == 1 else ("seq", flat[:-1], flat[-1])
     if body[0] == "call" and body[1] == "Extend::extend" and len(body[2]) == 2 and body[2][1] == ("tpl", "quote", "#0", [old]) \
             and not any(x == old for x in subterms(body[2][0])):
         # for x in xs { x.to_tokens(ts) }  ==  ts.extend(quote!( #( #xs )* ))
@@ -3920,6 +3947,45 @@ def _mk_for(it, body):
             arms.append((a[0], a[1], _mk_for(ai, rewrite(body, (lambda el: (lambda n: el if n == old else None))(el)))))
         return _canon_match_free(it[1], arms)
     return ("for", it, body)
+
+
+_ETA_ADAPTORS = ("Option::map", "Result::map", "Iterator::map", "Option::and_then", "Iterator::filter_map", "Iterator::for_each", "Iterator::flat_map",
+                 "Result::map_err", "Result::and_then")
+
+
+def _eta(f, d):
+    """the closure |x| f(x) of a function / constructor passed by name (only where the call has a canonical spelling of its own)"""
+    x = ("cparam", d, 0)
+    n = f[1]
+    if n in ("v1::Ok", "Result::Ok", "Ok"):
+        return ("closure", d, 1, ("call", "Ok", [x]))
+    if n in ("v1::Some", "Option::Some", "Some"):
+        return ("closure", d, 1, ("call", "Some", [x]))
+    if n in ("v1::Err", "Result::Err", "Err"):
+        return ("closure", d, 1, ("call", "Err", [x]))
+    if n in ("Box::new",) or n in TRANSPARENT:
+        return ("closure", d, 1, x)
+    return None
+
+
+
+def _elem_to_param(it, d):
+    """the rewrite that turns a loop body into the body of the closure |x| .. at depth d: the loop element becomes the closure parameter and the
+    closures of the body end up one level deeper (rewrite works bottom-up: by the time an `elem(it)` node is seen the closures inside `it` have
+    been moved already, so both spellings are the element)"""
+    def shift(n):
+        if n[0] == "cparam" and n[1] >= d:
+            return ("cparam", n[1] + 1, n[2])
+        if n[0] == "closure" and n[1] >= d:
+            return ("closure", n[1] + 1, n[2], n[3])
+        return None
+    keys = {_show(("elem", it)), _show(("elem", rewrite(it, shift)))}
+
+    def sub(n):
+        if n[0] == "elem" and _show(n) in keys:
+            return ("cparam", d, 0)
+        return shift(n)
+    return sub
 
 
 def _loop_control(t):
